@@ -18,6 +18,7 @@
 // One execution = (history, outage pattern, crash point):
 //
 //	history   Start(i) | Stop(i) | Tick(+interim interval) | +3s | Restart(graceful Stop + new manager)
+//	          | Kill(process dies between two operations; new manager on the surviving files)
 //	outage    a set of requests the server does not answer, named by
 //	          (session, status type, occurrence), or "down throughout"
 //	crash     "before step k" for every environment step k (mutating file
@@ -379,6 +380,7 @@ type exec struct {
 	stopCalled map[int]bool
 	ended      map[int]bool
 	restarts   int
+	kills      int
 	out        outcome
 }
 
@@ -437,6 +439,23 @@ func (x *exec) apply(op string) {
 		time.Sleep(interim)
 	case "+3s":
 		time.Sleep(3 * time.Second)
+	case "Kill":
+		// the process is killed between two operations (no step of its own in progress): freeze the
+		// environment, end the zombie unobservably, start a new process on the surviving files
+		x.e.mu.Lock()
+		x.e.crashed = true
+		x.e.mu.Unlock()
+		x.am.Stop()
+		synctest.Wait()
+		x.e.mu.Lock()
+		x.e.crashed = false
+		x.e.epoch++
+		x.e.mu.Unlock()
+		for i := range x.invoked {
+			x.ended[i] = true
+		}
+		x.kills++
+		x.newManager()
 	case "Restart":
 		x.am.Stop()
 		synctest.Wait()
@@ -588,7 +607,7 @@ func (x *exec) check(sc scenario) {
 			x.v("A5-identity", site, "record %v: user=%q mac=%q ip=%q class=%q nas=%q authenticator-ok=%v; session has user=%q mac=%q ip=%q class=%q", r, r.User, r.MAC, r.IP, r.Class, r.NAS, r.AuthOK, c.user, fmtMAC(c.mac), c.ip, c.class)
 		}
 		// A6 (history side): counters of records built from the live counter source
-		if (r.Typ == typStop || r.Typ == typInterim) && !x.out.Crashed && x.restarts == 0 {
+		if (r.Typ == typStop || r.Typ == typInterim) && !x.out.Crashed && x.restarts == 0 && x.kills == 0 {
 			if r.In != c.in || r.Out != c.out {
 				x.v("A6-counter-split", site, "record %v reports in=%d out=%d, counters are in=%d out=%d", r, r.In, r.Out, c.in, c.out)
 			}
@@ -598,7 +617,7 @@ func (x *exec) check(sc scenario) {
 			x.vs(r.Sess, "A3-stop-for-unstarted", site, "Stop transmitted for %s, for which accounting was never started (%v)", r.Sess, r)
 		}
 		// A4
-		if r.Typ == typStop && !x.out.Crashed {
+		if r.Typ == typStop && !x.out.Crashed && x.kills == 0 {
 			if p, ok := ackedStop[i]; ok {
 				x.vs(r.Sess, "A4-stop-retransmitted", site, "Stop for %s transmitted again (%v) after the server acknowledged record #%d", r.Sess, r, p-1)
 			}
@@ -721,7 +740,7 @@ func histories(n, maxSess int) [][]string {
 		for i := 0; i <= started && i < maxSess; i++ {
 			ops = append(ops, fmt.Sprintf("Stop(%d)", i))
 		}
-		ops = append(ops, "Tick", "+3s", "Restart")
+		ops = append(ops, "Tick", "+3s", "Restart", "Kill")
 		for _, op := range ops {
 			s := started
 			if strings.HasPrefix(op, "Start") {
@@ -792,7 +811,7 @@ func (d *driver) report(sc scenario, out outcome, v viol) {
 	trace = append(trace, "| accepted: "+out.Stream)
 	rv := report.Violation{Part: d.part, Kind: v.Kind, Site: v.Site, Detail: v.Detail, Config: sc.F.String(), Trace: trace,
 		Extra: map[string]any{"ops": sc.Ops, "drops": sc.F.Drops, "down": sc.F.Down, "crash_at": sc.F.Crash.At, "crash_mode": sc.F.Crash.Mode,
-			"crash_desc": out.CrashDesc, "crash_op": out.CrashOp, "sess": v.Sess, "unanswered": out.Unanswered, "crashed": out.Crashed}}
+			"crash_desc": out.CrashDesc, "crash_op": out.CrashOp, "sess": v.Sess, "unanswered": out.Unanswered, "crashed": out.Crashed, "epochs": out.Epochs}}
 	classify(&rv)
 	d.run.Violation(rv)
 }
@@ -1044,6 +1063,14 @@ func classify(v *report.Violation) {
 	}
 	// has(typ, beforeCrashOnly): the server left a request of this type for this session unanswered
 	// (it then lives only in the sending process's in-memory retry queue)
+	epochs := 0
+	switch n := v.Extra["epochs"].(type) {
+	case int:
+		epochs = n
+	case float64:
+		epochs = int(n)
+	}
+	// has(typ, deadInstanceOnly): ... deadInstanceOnly = sent by a process instance that died later (crash or kill)
 	has := func(typ int, firstInstanceOnly bool) bool {
 		for _, u := range unanswered {
 			var epoch int
@@ -1052,7 +1079,7 @@ func classify(v *report.Violation) {
 				key = u[:i]
 				fmt.Sscanf(u[i+1:], "%d", &epoch)
 			}
-			if strings.HasPrefix(key, fmt.Sprintf("%s/%d/", sess, typ)) && (!firstInstanceOnly || epoch == 0) {
+			if strings.HasPrefix(key, fmt.Sprintf("%s/%d/", sess, typ)) && (!firstInstanceOnly || epoch < epochs) {
 				return true
 			}
 		}
@@ -1062,7 +1089,7 @@ func classify(v *report.Violation) {
 	case "A1-stop-missing":
 		// the Stop was attempted by the process that later crashed, the server did not answer, so it
 		// sat in that process's memory queue (session file / pending.json already deleted) when it died
-		if crashed && has(typStop, true) {
+		if (crashed || epochs > 0) && has(typStop, true) {
 			v.Class = "C08-K1-stop-only-in-memory-queue"
 		}
 	case "A1-stop-not-durable":
@@ -1070,7 +1097,7 @@ func classify(v *report.Violation) {
 			v.Class = "C08-K1-stop-only-in-memory-queue"
 		}
 	case "A2-start-after-stop":
-		if !crashed && has(typStart, false) {
+		if !crashed && epochs == 0 && has(typStart, false) {
 			v.Class = "C08-K2-queued-start-overtaken-by-stop"
 		}
 	}
